@@ -732,17 +732,47 @@ def extract():
     try:
         cp = strip_cfg(load("src/util/capabilities.rs"))
         caps = []
+        # calls after the `caps.len() >= 20` test read the second 32-bit word
+        second = None
+        for i in range(len(cp) - 2):
+            if cp[i] == ("p", ">=") and cp[i + 1] == ("num", "20"):
+                second = i
+                break
+        if second is None:
+            for i in range(len(cp) - 3):
+                if cp[i] == ("p", ">") and cp[i + 1] == ("p", "=") and cp[i + 2] == ("num", "20"):
+                    second = i
+                    break
+        if second is None:
+            raise ExtractError("capabilities.rs: `caps.len() >= 20` test not found")
         for i in range(len(cp) - 4):
             if cp[i] == ("ident", "check_cap!") and cp[i + 1] == ("p", "("):
                 e = match_close(cp, i + 1)
                 inner = cp[i + 2:e]
                 ids = [t for k, t in inner if k == "ident"]
-                nums = [t for k, t in inner if k == "num"]
-                if ids and nums:
-                    caps.append((ids[0], int(nums[0])))
+                # the bit expression: second macro argument, `N` or `N - M`
+                depth = 0
+                args = [[]]
+                for k, t in inner:
+                    if (k, t) == ("p", ",") and depth == 0:
+                        args.append([])
+                    else:
+                        args[-1].append((k, t))
+                if len(args) < 2:
+                    raise ExtractError("capabilities.rs: check_cap! with too few arguments")
+                expr = args[1]
+                if len(expr) == 1 and expr[0][0] == "num":
+                    bit = int(expr[0][1])
+                elif len(expr) == 3 and expr[0][0] == "num" and expr[1] == ("p", "-") and expr[2][0] == "num":
+                    bit = int(expr[0][1]) - int(expr[2][1])
+                else:
+                    raise ExtractError("capabilities.rs: unsupported bit expression %r" % (expr,))
+                if not ids or bit < 0:
+                    raise ExtractError("capabilities.rs: malformed check_cap! call")
+                caps.append((ids[0], 1 if i > second else 0, bit))
         info["caps"] = len(caps)
-        out.append("def capTable : List (List Char × Nat) := [\n" + ",\n".join(
-            "  (%s, %d)" % (lean_str(a), n) for a, n in caps) + "\n]")
+        out.append("/-- capability name, 32-bit word of vfs_cap_data (0/1), bit in that word -/\ndef capTable : List (List Char × Nat × Nat) := [\n" + ",\n".join(
+            "  (%s, %d, %d)" % (lean_str(a), w, n) for a, w, n in caps) + "\n]")
     except ExtractError as e:
         raise
 
